@@ -6,6 +6,9 @@ CONSTANTS
   Kinds = {"single", "stream2", "fail", "rfail", "empty"}
   MaxCredit = 0
   MaxTick = 0
+  NP = 1
+  Limit = 1
+  MaxFail = 1
   MaxAbort = 0
 SPECIFICATION SpecDg
 INVARIANT DgramEachOnce
